@@ -181,10 +181,6 @@ class SinglePhaseReservoir(IdealReservoir):
         ------
         ValueError: wrong length changing pressure at frac-face
         """
-        self.time = time
-        vars(self).pop("recovery", None)  # recovery cached from an earlier run is stale
-        dx_squared = (1 / self.nx) ** 2
-        pseudopressure = np.empty((len(time), self.nx))
         if pressure_fracface is None:
             pressure_fracface = np.full(len(time), self.pressure_fracface)
         else:
@@ -196,6 +192,11 @@ class SinglePhaseReservoir(IdealReservoir):
                 raise ValueError(msg)
         m_i = self.fluid.m_i
         m_f = self.fluid.m_scaled_func(pressure_fracface)
+        # the arguments are valid: only now replace the stored run
+        self.time = time
+        vars(self).pop("recovery", None)  # recovery cached from an earlier run is stale
+        dx_squared = (1 / self.nx) ** 2
+        pseudopressure = np.empty((len(time), self.nx))
         pseudopressure_initial = np.full(self.nx, m_i)
         pseudopressure_initial[0] = m_f[0]
         pseudopressure[0, :] = pseudopressure_initial
